@@ -23,6 +23,7 @@ RULE = ("typed generator (static type known by construction) over every built-in
         "negative half: each position of contains/startswith/endswith with each of the 11 "
         "literal kinds + list, directly on typecheck and through the Django and SQLAlchemy "
         "visitors. distinct = distinct (expression text); non-trivial = contains a call")
+RULE += (" " + "Also: arithmetic over points in time and durations (6 x 6 operand kinds x 4 operators) against the specification's result types.")
 ASSUMPTIONS = ["reference return types in vpmon/ref/functable.py (round/floor/ceiling of a "
                "Double is a Double)"]
 SHARDS = {"quick": 10, "thorough": 16}
